@@ -1,8 +1,8 @@
 CHECK = {
     "suites": [
-        suite("history", "c09", 3000, 40000, stdin=True),
-        suite("monitor", "c09", 600, 6000, stdin=True, args=["-suite", "monitor"]),
-        suite("cadence", "c09", 0, 40, stdin=True, args=["-suite", "cadence"], tiers=["thorough"],
+        suite("history", "c09", 8000, 80000, stdin=True),
+        suite("monitor", "c09", 2000, 12000, stdin=True, args=["-suite", "monitor"]),
+        suite("cadence", "c09", 0, 60, stdin=True, args=["-suite", "cadence"], tiers=["thorough"],
               timeout={"quick": 300, "thorough": 800}),
     ],
     "lean_sources": ["ClusterVerif/Model/C09.lean", "ClusterVerif/Spec/C09.lean", "ClusterVerif/Lemmas/C09.lean"],
